@@ -703,6 +703,8 @@ func (w *world) judge(c *ev.Case, q *request) string {
 func runRequests(c *ev.Case, w *world, n int, forceBlocks bool) {
 	for i := 0; i < n; i++ {
 		q := w.genRequest(c.Rand, forceBlocks)
+		// written before the call: a request that kills or hangs the process is then the replayable witness
+		c.Journal(map[string]interface{}{"request_index": i, "headers": q.headers, "locator_kind": q.locDesc, "locator_len": len(q.locator), "stop_kind": q.stopDesc, "stop": q.stop.String(), "skip": fmt.Sprint(q.skip), "main_chain_height": len(w.main) - 1})
 		out := w.judge(c, q)
 		kind := "B"
 		sk := ""
